@@ -31,6 +31,13 @@ impl<K: Ord, V> TopN<K, V> {
         self.count += 1;
         self.echelons.entry(k).or_default().push(v);
 
+        #[cfg(feature = "verif")]
+        crate::verif::emit("topn", &[
+            ("count", self.count.to_string()),
+            ("limit", self.limit.map_or(String::from("none"), |l| l.to_string())),
+            ("keys", self.echelons.len().to_string()),
+        ]);
+
         if let Some(limit) = self.limit {
             if limit < self.count {
                 self.count -= 1;
